@@ -553,6 +553,20 @@ pub fn extra_pairs() -> Vec<MCase> {
         }
     }
     let _ = levels;
+    // ---- (E) user-chosen *type* names: an alias, a record alias and a sum type, used in parameter, result
+    // and let annotations whose structure matters (projection, field access, match); renamed to short and
+    // odd but legal names (single upper-case letters, names that differ in case only, names that contain
+    // a builtin type's name)
+    let type_progs: [(&str, &str); 3] = [
+        ("alias-of-tuple", "type alias TYPE = (float, float)\nfn swap(v: TYPE)->TYPE{ (v.1, v.0) }\nfn dsp(){\n  let p: TYPE = swap((1.0, now))\n  p.0 * 10.0 + p.1\n}\n"),
+        ("alias-of-record", "type alias TYPE = {freq: float, amp: float}\nfn louder(v: TYPE)->TYPE{ {freq = v.freq, amp = v.amp * 2.0} }\nfn dsp(){\n  let p: TYPE = louder({freq = 440.0, amp = now})\n  p.freq + p.amp\n}\n"),
+        ("sum-type", "type TYPE = Off | On(float)\nfn level(v: TYPE)->float{\n  match v { Off => 0.0, On(x) => x }\n}\nfn flip(v: TYPE)->TYPE{\n  match v { Off => On(1.0), On(x) => Off }\n}\nfn dsp(){\n  level(flip(Off)) * 10.0 + level(flip(On(now)))\n}\n"),
+    ];
+    for (ttag, text) in type_progs {
+        for new_name in ["V", "T", "X", "Vec2", "vec2", "Float2", "Tfloat", "V_", "A1"] {
+            push(&format!("rename-type/{ttag}/{new_name}"), text.replace("TYPE", "Signal"), text.replace("TYPE", new_name));
+        }
+    }
     // ---- (D) two function values whose parameters are named differently meet in one type (arms of an
     // if, elements of an array, two uses of one higher-order parameter): renaming a parameter of one of
     // them must not change whether the program compiles
